@@ -3,8 +3,8 @@
 import json, os, sys
 HERE = os.path.dirname(os.path.abspath(__file__))
 sys.path.insert(0, HERE)
-from plan import PLAN
-from claims import CLAIMS, NOT_APPLICABLE, HOOK_COMMITS
+from plan import PLAN, CLAIMS
+from claims import NOT_APPLICABLE, HOOK_COMMITS
 
 ROOT = os.path.dirname(HERE)
 checks = []
@@ -24,7 +24,7 @@ for pid in sorted(PLAN):
 na = [dict(property_id=p, reason=r) for p, r in sorted(NOT_APPLICABLE.items()) if p not in PLAN]
 m = dict(
     version=1,
-    setup_cmd="./check --build asm purego race",
+    setup_cmd="./check --build",
     hooks=dict(guard="verif (Go build tag)", enable="go build -tags verif (harness/go.mod replaces github.com/emmansun/gmsm with /repo; every check rebuilds the child binary from /repo's working tree)",
                baseline_off_cmd="cd /repo && GOFLAGS=-mod=mod GOPROXY=off GOSUMDB=off go test -json -vet=off -count=1 -timeout 25m ./...",
                source_commits=HOOK_COMMITS, add_only=True),
